@@ -1,7 +1,7 @@
 (* Stable, uniquely named entry points for the OCaml driver (extraction renames clashing
    identifiers such as eqb -> eqb0; these wrappers keep the driver independent of that). *)
 From Coq Require Import NArith ZArith List Bool.
-From Chess Require Import gen.T_zobrist base.Bits base.Types base.BitBoard geom.Geometry geom.GenFns geom.Lookup model.Score model.Abi model.Text model.Tracing.
+From Chess Require Import gen.T_zobrist base.Bits base.Types base.BitBoard geom.Geometry geom.GenFns geom.Lookup model.Score model.Abi model.Text model.Tracing spec.Rules model.Board model.MoveGen model.Apply model.Fen.
 Import ListNotations.
 Local Open Scope N_scope.
 
@@ -119,3 +119,43 @@ Definition api_mk_range := mk_range.
 
 (* ---- tracing (C20) ---- *)
 Definition api_run_stack := run_stack.
+
+(* ---- chess core (C01-C07, C10) ---- *)
+Definition api_parse_fen_t := parse_fen_t.
+Definition api_write_fen := write_fen.
+Definition api_legals := MoveGen.legals.
+Definition api_is_legal := MoveGen.is_legal.
+Definition api_gen_len (b : board) : N * bool := let g := legals_gen b in (mg_len g, mg_is_empty g).
+Definition api_in_check := Board.in_check.
+Definition api_state := Apply.state.
+Definition api_zobrist := Board.zobrist.
+Definition api_apply := Apply.apply.
+Definition api_abs := Board.abs.
+Definition api_board_all_eqb := board_all_eqb.
+Definition api_board_eqb := board_eqb.
+Definition api_standard := Board.standard.
+Definition api_empty_board := empty_board.
+Definition api_bstep := bstep.
+Definition api_build := build.
+Definition api_spec_legal_moves := Rules.legal_moves.
+Definition api_spec_is_legal := Rules.is_legal_move.
+Definition api_spec_in_check := Rules.in_check.
+Definition api_spec_classify := Rules.classify.
+Definition api_spec_make := Rules.make.
+Definition api_spec_playable := Rules.playable.
+Definition api_spec_same_position := Rules.same_position.
+Definition api_spec_start := Rules.start_position.
+Definition api_spec_mirror := Rules.mirror.
+(* full equality of rules-level positions including clocks *)
+Definition api_spec_pos_eqb (a b : position) : bool :=
+  Rules.same_position a b && (hm a =? hm b) && (fm a =? fm b).
+(* iterator *)
+Definition api_legals_gen := legals_gen.
+Definition api_legals_masked_gen := legals_masked_gen.
+Definition api_mg_next := mg_next.
+Definition api_mg_len := mg_len.
+Definition api_mg_is_empty := mg_is_empty.
+Definition api_mg_set_mask := mg_set_mask.
+Definition api_mg_remove := mg_remove.
+Definition api_mg_remove_move := mg_remove_move.
+Definition api_mk_move (s d : N) (p : option piece) : move := {| m_src := s; m_dst := d; m_promo := p |}.
